@@ -24,20 +24,30 @@ theorem msl_exporter_shape_as_modelled :
   decide
 
 /-- `generate_intrinsic_op`'s table for Metal (re-extracted on every run): every typed operator is mapped to the syntax
-operator whose C meaning is the RSSL meaning of the typed operator; `%` alone looks at its operand type and becomes
-`metal::fmod` for floating-point operands; the helper / mesh forms have no meaning in the scalar subset. -/
+operator whose C meaning is the RSSL meaning of the typed operator; `%` and `%=` alone look at their operand type: `%`
+becomes `metal::fmod` for floating-point operands, and `%=` on a floating-point target (Metal has neither operator for
+floats; fixes 92d66eb + 35faaaa) is generated as the assignment `a = a % b` — through the very rows of this table for `=`
+and `%` — or refused with `ComplexRemainderAssignment`, and stays `%=` otherwise; the helper / mesh forms have no meaning in
+the scalar subset. -/
 theorem msl_op_table_is_identity :
     (∀ o u, mslOpForm o = .unary u → astUnSem u = irOpSem o) ∧
     (∀ o b, mslOpForm o = .binary b → astBinSem b = irOpSem o) ∧
     (∀ o n s b, mslOpForm o = .floatCall n s b → o = .Modulus ∧ n = "fmod" ∧ astBinSem b = irOpSem o ∧
         s = ["Float16", "Float32", "Float64", "FloatLiteral"]) ∧
+    (∀ o s err outer inner b, mslOpForm o = .floatAssign s err outer inner b →
+        o = .RemainderAssignment ∧ astBinSem b = irOpSem o ∧ irOpSem o = .compound .mod ∧
+        irOpSem outer = .assign ∧ irOpSem inner = .bin .mod ∧ s = ["Float16", "Float32", "Float64"] ∧
+        err = "ComplexRemainderAssignment") ∧
     (∀ o, (mslOpForm o = .special ∨ mslOpForm o = .meshMethod ∨ mslOpForm o = .meshHelper) → irOpSem o = .unsupported) := by
-  refine ⟨?_, ?_, ?_, ?_⟩
+  refine ⟨?_, ?_, ?_, ?_, ?_⟩
   · intro o u h; cases o <;> simp [mslOpForm] at h <;> subst h <;> rfl
   · intro o b h; cases o <;> simp [mslOpForm] at h <;> subst h <;> rfl
   · intro o n s b h; cases o <;> simp [mslOpForm] at h
     obtain ⟨rfl, rfl, rfl⟩ := h
     exact ⟨rfl, rfl, rfl, rfl⟩
+  · intro o s err outer inner b h; cases o <;> simp [mslOpForm] at h
+    obtain ⟨rfl, rfl, rfl, rfl, rfl⟩ := h
+    exact ⟨rfl, rfl, rfl, rfl, rfl, rfl, rfl⟩
   · intro o h; cases o <;> simp [mslOpForm] at h <;> rfl
 
 /-- the Metal literal function has the same arms, in the same order, as the HLSL one (`Gen.HlslGenTables.literalArms`),
